@@ -33,6 +33,11 @@ def spd_spec(draw, kinds=("iso", "diag", "full"), lo=0.1, hi=10.0, het=False):
         eig = [v, v, v]
     else:
         eig = [draw(_f(lo, hi)) for _ in range(3)]
+        # transversely isotropic tensors (two equal principal values) are a legal and common class that
+        # independent draws never produce; force it in a third of the anisotropic cases
+        pair = draw(st.sampled_from([None, None, (0, 1), (0, 2), (1, 2)]))
+        if pair is not None:
+            eig[pair[1]] = eig[pair[0]]
     s = {"kind": kind, "eig": eig, "axis": None, "angle": 0.0, "het_amp": 0.0, "het_seed": 0}
     if kind == "full":
         s["axis"] = [draw(_f(-1, 1)), draw(_f(-1, 1)), draw(_f(0.2, 1))]
